@@ -310,7 +310,7 @@ pub fn run(ctx: &Ctx) {
     ctx.exhaustive_part("all members of the four name tables and all their one-edit neighbours");
 
     // ---- 3. random non-members via proptest (name alphabet; recombined member fragments)
-    let ncases = ctx.tier.pick(400_000u64, 20_000_000u64);
+    let ncases = ctx.tier.pick(4_000_000u64, 40_000_000u64);
     {
         let tabs: Vec<Members> = [Table::Element, Table::Attribute, Table::Enum, Table::Version].into_iter().map(members).collect();
         let prefixes: Vec<HashSet<Vec<u8>>> = tabs.iter().map(|m| m.texts.iter().filter(|t| t.len() >= 3).map(|t| t.as_bytes()[..3].to_vec()).collect()).collect();
@@ -449,7 +449,7 @@ pub fn run(ctx: &Ctx) {
     let tids: Vec<usize> = (0..si.types.len()).collect();
     let all_names: &Vec<ElementName> = &si.element_names;
     let all_attrs: &Vec<AttributeName> = &si.attribute_names;
-    let neg_stride = ctx.tier.pick(97usize, 1usize);
+    let neg_stride = ctx.tier.pick(11usize, 1usize);
     par_items(ctx, &tids, |tid, st| {
         let ti = &si.types[*tid];
         let et = ti.etype;
